@@ -22,6 +22,7 @@ import GoaktVerif.Model.C25Wire
 import GoaktVerif.Spec.C25
 import GoaktVerif.Lemmas.C25
 import GoaktVerif.Lemmas.C25Dispatch
+import GoaktVerif.Lemmas.C25Wire
 
 namespace GoaktVerif.C25
 open GoaktVerif.Model.C25 GoaktVerif.Spec.C25
@@ -294,6 +295,26 @@ theorem delivery_roundtrip (pc : EnvCodec) (law : EnvLaw pc) (c : Cmd) (hv : c.v
     have h4 : deliveryMagic.length = 8 := rfl
     simp
     omega
+
+/-- The same with protobuf replaced by the concrete wire codec of Model/C25Wire.lean + Model/C25WireDec.lean, whose
+    round trip is PROVED (`WireLemmas.decEnv_encEnv`): no hypothesis about protobuf is left, only sizes that fit
+    (strings and payload below 4 GiB, int64 fields in range).  The encoder half of that codec is compared byte for
+    byte with protobuf-go by the differential. -/
+theorem delivery_roundtrip_wire (c : Cmd) (hv : c.valid = true) (hwf : c.wf = true)
+    (hfit : Wire.envFits c.toEnv = true) :
+    deliveryEncode Wire.wireEnvCodec c = .ok (deliveryMagic ++ Wire.encEnv c.toEnv)
+    ∧ deliveryDecode Wire.wireEnvCodec (deliveryMagic ++ Wire.encEnv c.toEnv) = .ok c := by
+  constructor
+  · simp [deliveryEncode, hv, Wire.wireEnvCodec]
+  · have h1 : (deliveryMagic ++ Wire.encEnv c.toEnv).take 8 = deliveryMagic := by simp [deliveryMagic]
+    have h2 : (deliveryMagic ++ Wire.encEnv c.toEnv).drop 8 = Wire.encEnv c.toEnv := by simp [deliveryMagic]
+    have h4 : deliveryMagic.length = 8 := rfl
+    unfold deliveryDecode
+    simp only [h1, h2, Wire.wireEnvCodec, WireLemmas.decEnv_encEnv _ hfit, env_roundtrip c hv hwf]
+    simp
+    omega
+
+example : Wire.envFits (Cmd.sequenced [115] [109] 7 [1, 2] true true false).toEnv = true := by decide
 
 /-- an invalid command yields an error, never bytes -/
 theorem delivery_invalid (pc : EnvCodec) (c : Cmd) (hv : c.valid = false) :
